@@ -438,6 +438,20 @@ class TypedNode(Node):
     #     """Remove all children of this node, making it a leaf node."""
     #     raise NotImplementedError
 
+    def _add_from(self, other: Node, *, predicate=None) -> None:
+        """Append copies of all source descendants to self (keeping the kind)."""
+        if predicate:
+            return self._add_filtered(other, predicate)
+
+        assert not self._children
+        for child in other.children:
+            new_child = self.add_child(
+                child.data, kind=getattr(child, "kind", None), data_id=child._data_id
+            )
+            if child.children:
+                new_child._add_from(child, predicate=None)
+        return
+
     def copy(self, *, add_self=True, predicate=None) -> TypedTree:
         """Return a new :class:`~nutree.typed_tree.TypedTree` instance from this branch.
 
